@@ -4,6 +4,30 @@ backslash; the implementation uses the unicode_escape codec): the subset every e
 SIMPLE = {'n': '\n', 't': '\t', 'r': '\r', '\\': '\\', "'": "'", '"': '"', '0': '\0', 'a': '\a', 'b': '\b', 'f': '\f', 'v': '\v'}
 
 
+def _named(name):
+    import unicodedata
+    try:
+        return unicodedata.lookup(name)
+    except KeyError:
+        return None
+
+
+UNMODELLED = r'\\N\{[^}]*\}|\\U[0-9a-fA-F]{8}'       # escape-shaped sequences that name no character: what they become is not specified
+
+
+def segments(text):
+    """for a text the model cannot process as a whole because of UNMODELLED sequences: the processed pieces between them, in order
+    (each of them must appear in the emitted bytes, the first at the start, the last at the end), or None"""
+    import re
+    parts = re.split(UNMODELLED, text)
+    if len(parts) < 2:
+        return None
+    try:
+        return [process(p) for p in parts]
+    except ValueError:
+        return None
+
+
 def process(text):
     out = []
     i = 0
@@ -28,6 +52,13 @@ def process(text):
                 raise ValueError('truncated \\u escape')
             out.append(chr(int(hx, 16)))
             i += 6
+        elif n == 'U' and len(text[i + 2:i + 10]) == 8 and all(c in '0123456789abcdefABCDEF' for c in text[i + 2:i + 10]) \
+                and int(text[i + 2:i + 10], 16) <= 0x10ffff and not 0xd800 <= int(text[i + 2:i + 10], 16) <= 0xdfff:
+            out.append(chr(int(text[i + 2:i + 10], 16)))
+            i += 10
+        elif n == 'N' and text[i + 2:i + 3] == '{' and '}' in text[i + 3:] and _named(text[i + 3:text.index('}', i + 3)]) is not None:
+            out.append(_named(text[i + 3:text.index('}', i + 3)]))
+            i = text.index('}', i + 3) + 1
         elif n in SIMPLE and not (n == '0' and text[i + 2:i + 3].isdigit()):
             out.append(SIMPLE[n])
             i += 2
